@@ -108,8 +108,11 @@ func buildCorpus() {
 		}
 	}
 	rng := tape.SplitMix64{S: 12345}
-	for _, n := range []int{5, 6, 7, 8, 9, 12, 15, 16, 17, 20, 31, 32, 33, 40, 62, 63, 64, 70} {
+	for _, n := range []int{5, 6, 7, 8, 9, 12, 15, 16, 17, 20, 31, 32, 33, 40, 62, 63, 64, 70, 92, 100, 128} {
 		for _, den := range []uint64{0, 1, 3, 8, 16} {
+			if n > 70 && den != 1 && den != 8 {
+				continue
+			}
 			g := mkGraph(n, func(i, j int) bool { return rng.Next()%16 < den })
 			addBoth(g, fmt.Sprintf("random graph n=%d density=%d/16", n, den))
 		}
@@ -227,6 +230,28 @@ func wellFormed(g graph.Graph, full bool) string {
 type eng struct {
 	r       *driver.Run
 	decodes int64
+	// the previous successfully decoded graph and what it looked like when it was returned:
+	// a value handed to the caller must not change when another record is decoded later
+	prev     graph.Graph
+	prevAdj  [][]int
+	prevDesc string
+}
+
+func (e *eng) checkPrev(after string) {
+	if e.prev == nil {
+		return
+	}
+	var now [][]int
+	var wf string
+	if p := e.r.Call("observers of an earlier result", 50_000_000, func() {
+		now = adjacency(e.prev)
+		wf = wellFormed(e.prev, e.prev.N() <= 80)
+	}); p != "" {
+		e.r.Fail("earlier-result-corrupted", "earlier result changed by a later decode", "the graph returned for %s panics when observed after decoding %s: %s", e.prevDesc, after, p)
+	}
+	if wf != "" || !sameAdj(now, e.prevAdj) {
+		e.r.Fail("earlier-result-corrupted", "earlier result changed by a later decode", "the graph returned for %s changed (or became malformed: %q) after decoding %s", e.prevDesc, wf, after)
+	}
 }
 
 // decodeOne feeds one (possibly damaged) record to the decoder of its kind.
@@ -262,6 +287,7 @@ func (e *eng) decodeOne(kind, s, how string) {
 	if pd != "" {
 		r.Fail("panic", fn+" @ "+pd, "%s(%q) panicked: %s   [%s]", fn, clip(s), pd, how)
 	}
+	e.checkPrev(fmt.Sprintf("%s(%q)", fn, clip(s)))
 	if err != nil {
 		r.Count("decode_errors", 1)
 		r.Obs(1)
@@ -283,6 +309,9 @@ func (e *eng) decodeOne(kind, s, how string) {
 		r.Fail("malformed-graph", fn, "%s(%q) returned a malformed graph: %s   [%s]", fn, clip(s), wf, how)
 	}
 	r.Obs(2, uint64(g.N()), uint64(g.M()))
+	if g.N() <= 150 {
+		e.prev, e.prevAdj, e.prevDesc = g, adjacency(g), fmt.Sprintf("%s(%q)", fn, clip(s))
+	}
 	if g.N() > 300 {
 		return
 	}
@@ -358,7 +387,11 @@ func (e *eng) enumerate(c record) {
 	}
 	r.Fault("misdirected-read")
 	e.decodeOne(other, s, "record of the other format")
+	long := len(s) > 200
 	for cut := 0; cut < len(s); cut++ {
+		if long && cut > 24 && cut < len(s)-24 && cut%11 != 0 {
+			continue
+		}
 		try(s[:cut], fmt.Sprintf("torn write: truncated to %d of %d bytes", cut, len(s)), "torn-write")
 	}
 	vals := boundaryBytes
@@ -370,14 +403,14 @@ func (e *eng) enumerate(c record) {
 					try(s[:pos]+string([]byte{byte(v)})+s[pos+1:], fmt.Sprintf("byte %d replaced by %d", pos, v), "byte-substitution")
 				}
 			}
-		} else if pos < 12 || pos >= len(s)-4 || pos%7 == 0 {
+		} else if pos < 12 || pos >= len(s)-4 || (!long && pos%7 == 0) || pos%53 == 0 {
 			for _, v := range vals {
 				if v != s[pos] {
 					try(s[:pos]+string([]byte{v})+s[pos+1:], fmt.Sprintf("byte %d replaced by %d", pos, v), "byte-substitution")
 				}
 			}
 		}
-		if all || pos < 12 || pos >= len(s)-4 || pos%5 == 0 {
+		if all || pos < 12 || pos >= len(s)-4 || (!long && pos%5 == 0) || pos%41 == 0 {
 			for bit := 0; bit < 8; bit++ {
 				try(s[:pos]+string([]byte{s[pos] ^ 1<<uint(bit)})+s[pos+1:], fmt.Sprintf("bit %d of byte %d flipped", bit, pos), "bit-flip")
 			}
@@ -522,8 +555,8 @@ func main() {
 		Property: "C08",
 		Engine:   "record-store",
 		Level:    "fault_enumeration",
-		Rule: "enumerated case = one record of a corpus written by the encoders (every labelled graph n <= 4, random graphs for 18 sizes up to n = 70 crossing the 62/63 header boundary, padding special cases, headered records, hand-assembled long-header records up to declared n = 4096): the record is read back undamaged, through the other decoder, truncated at EVERY offset, with EVERY single-byte substitution (all 256 values; a boundary set for records > 24 bytes), EVERY single-bit flip (sampled positions for long records), every lost / duplicated chunk of 1-3 bytes in the first 40 bytes, appended padding, zeroed. " +
-			"Random runs apply 1-3 tape-drawn faults (incl. splices of two records, rewritten size headers, replacement by tape bytes). Each decode runs under recover and a logical step budget. Non-trivial = damaged record of >= 2-3 bytes; distinct = distinct fingerprints of (damaged bytes, outcome).",
+		Rule: "enumerated case = one record of a corpus written by the encoders (every labelled graph n <= 4, random graphs for 21 sizes up to n = 128 crossing the 62/63 header boundary, padding special cases, headered records, hand-assembled long-header records up to declared n = 4096): the record is read back undamaged, through the other decoder, truncated at EVERY offset (records over 200 bytes: the first and last 24 offsets and every 11th), with EVERY single-byte substitution (all 256 values; a boundary set for records > 24 bytes), EVERY single-bit flip (sampled positions for long records), every lost / duplicated chunk of 1-3 bytes in the first 40 bytes, appended padding, zeroed. " +
+			"Random runs apply 1-3 tape-drawn faults (incl. splices of two records, rewritten size headers, replacement by tape bytes). Each decode runs under recover and a logical step budget; after every decode the previously returned graph is observed again and must be unchanged. Non-trivial = damaged record of >= 2-3 bytes; distinct = distinct fingerprints of (damaged bytes, outcome).",
 		Assumptions: []string{
 			"records whose declared n (computed by the harness's own header parser) exceeds 4096 are skipped: the property's resource bound",
 			"records without a parseable size declaration only have to be survived (no panic, terminate); a graph returned must still be well formed and a re-encode fixpoint",
